@@ -440,6 +440,7 @@ def entry_summary(cx, name):
     limit = []
     paths = enumerate_paths(cfg, 0, lambda blk: blk.term.kind == "return", du=du, on_limit=lambda: limit.append(1), max_paths=40000)
     is_req = lambda l: body.ty_is(l, "Request")
+    slq = Slice(body, du)
     def is_conn(l): return "Connection" in body.ty(ref_base(du, l)[0]) + body.ty(l)
     nraw = len(raw.d["blocks"])
     out = dict(paths=0, writes=0, sent=0, flags=set(), reader_taken=set(), reads=set(), writer_back=set(), writer_kept=set(), armed=set(), undecided=[], limit=bool(limit), body=body, sends_inlined=[p for p, _ in body.inlined if p.endswith("::send")])
@@ -448,16 +449,18 @@ def entry_summary(cx, name):
         out["paths"] += 1
         freq = {}                     # (request local, flag) -> abstract value
         wrote = False; ser_flags = None; reader_taken = False; reads = set(); back = False; kept = False; armed = None; created = set()
-        flushed = False; failed_after_flush = False
+        flushed = False; failed_after_flush = False; seq = 0
         for kind, b, x, st in absval.walk(body, du, cfg, p):
             if kind == "stmt" and x.kind == "assign":
                 s = x
                 if s.lhs.p and s.lhs.fields()[-1:] and s.lhs.fields()[-1] in FLAGS and is_req(ref_base(du, s.lhs.l)[0]) and s.ops:
-                    freq[(ref_base(du, s.lhs.l)[0], s.lhs.fields()[-1])] = absval.operand_value(st, s.ops[0]) if s.rv == "use" else None
+                    seq += 1
+                    freq[(ref_base(du, s.lhs.l)[0], s.lhs.fields()[-1])] = (seq, absval.operand_value(st, s.ops[0]) if s.rv == "use" else None)
                 if s.rv == "agg" and isinstance(s.agg, dict) and s.agg.get("adt", "").split("::")[-1] == "Request" and not s.lhs.p:
                     names = s.agg.get("fields") or []
                     for fl in FLAGS:
-                        if fl in names and names.index(fl) < len(s.ops): freq[(s.lhs.l, fl)] = absval.operand_value(st, s.ops[names.index(fl)])
+                        if fl in names and names.index(fl) < len(s.ops):
+                            seq += 1; freq[(s.lhs.l, fl)] = (seq, absval.operand_value(st, s.ops[names.index(fl)]))
                 if s.lhs.p and s.lhs.fields()[-1:] == ["writer"] and is_conn(s.lhs.l) and "MethodCall" not in body.ty(ref_base(du, s.lhs.l)[0]): back = True
                 if s.lhs.p and s.lhs.fields()[-1:] == ["writer"] and ref_base(du, s.lhs.l)[0] == 1: kept = True
                 if s.lhs.p and s.lhs.fields()[-1:] == ["continues"] and ref_base(du, s.lhs.l)[0] == 1 and s.ops:
@@ -465,10 +468,18 @@ def entry_summary(cx, name):
             elif kind == "term" and x.kind == "call" and not x.callee.indirect:
                 t = x; n = t.callee.name
                 if n == "create" and "Request" in t.callee.path and t.dest is not None:
-                    for fl in FLAGS: freq[(t.dest.l, fl)] = ("var", 0, ())       # Request::create leaves the flags unset (checked separately)
+                    for fl in FLAGS:
+                        seq += 1; freq[(t.dest.l, fl)] = (seq, ("var", 0, ()))       # Request::create leaves the flags unset (checked separately)
                 if n == "to_string" and "serde_json" in t.callee.path and t.args and t.args[0].place is not None:
                     r = ref_base(du, t.args[0].place.l)[0]
-                    ser_flags = tuple(_show(freq.get((r, fl))) for fl in FLAGS)
+                    # every local the serialised Request passed through on its way here (moves, Ok(..), `?`)
+                    from vlib.facts import Place
+                    slq.origins(Place({"l": r, "p": []}))
+                    alias = {l for (l, pj) in slq.last_seen if is_req(l) or any(k[0] == l for k in freq)} | {r}
+                    def latest(fl):
+                        c = [freq[(l, fl)] for l in alias if (l, fl) in freq]
+                        return max(c)[1] if c else None
+                    ser_flags = tuple(_show(latest(fl)) for fl in FLAGS)
                 if n in ("write_all", "write") and ("io::" in t.callee.resolved or "Write" in (t.callee.trait or "")): wrote = True
                 if n == "flush" and ("io::" in t.callee.resolved or "Write" in (t.callee.trait or "")): flushed = True
                 if n == "from_residual" and flushed and b >= nraw: failed_after_flush = True
